@@ -12,7 +12,7 @@ import (
 )
 
 func (app *App) handleStreamShowAll(w http.ResponseWriter, r *http.Request) {
-	output, err := json.Marshal(app.Hub.Rules)
+	output, err := json.Marshal(app.Hub.GetRules())
 	if err != nil {
 		http.Error(w, err.Error(), 500)
 		return
@@ -28,7 +28,7 @@ func (app *App) handleStreamShow(w http.ResponseWriter, r *http.Request) {
 	vars := mux.Vars(r)
 	stream := vars["stream"]
 
-	if feeds, ok := app.Hub.Rules[stream]; ok {
+	if feeds, ok := app.Hub.GetRule(stream); ok {
 
 		output, err := json.Marshal(feeds)
 		if err != nil {
